@@ -13,7 +13,7 @@ def short(s, n=330):
     s = re.sub(r"\s+", " ", s)
     return s if len(s) <= n else s[:n].rsplit(" ", 1)[0] + " …"
 sec14 = [open(os.path.join(R, "design.d", "30_sec14_intro.md")).read().rstrip(), ""]
-sec14.append("**Repaired (%d `fix:` commits; full text with witnesses in `known_findings.txt`):**\n" % len(fixed))
+sec14.append("**Repaired (%d `fixed:` entries, one per defect and `fix:` commit; full text with witnesses in `known_findings.txt`):**\n" % len(fixed))
 for pid in sorted({p for p, _ in fixed}):
     sec14.append("* **%s**" % pid)
     for p, t in fixed:
